@@ -236,6 +236,24 @@ def run_in_pieces(events, rng):
     return out, len(cuts) + 1
 
 
+def run_shared_lists(events, rng):
+    """The image tables are the CALLER's lists: two CallstacksParser objects over the same two list objects take turns (one
+    per piece of the stream), and now and then the owner replaces a parser by a new one over the same lists.  Together
+    they must behave like one parser over those lists."""
+    from pykdebugparser.callstacks_parser import CallstacksParser
+    addresses, uuids = [], []
+    tp = ev.new_parser()
+    parsers = [CallstacksParser(addresses, uuids), CallstacksParser(addresses, uuids)]
+    cuts = sorted(rng.randrange(len(events) + 1) for _ in range(rng.choice((1, 2, 4))))
+    out, prev = [], 0
+    for k, c in enumerate(cuts + [len(events)]):
+        if rng.random() < 0.3:
+            parsers[k % 2] = CallstacksParser(addresses, uuids)
+        out += list(parsers[k % 2].feed_generator(tp.feed_generator(iter(events[prev:c]))))
+        prev = c
+    return out
+
+
 def one_history(res, rng, ctx):
     from pykdebugparser.pykdebugparser import PyKdebugParser
     merged, samples = gen_history(rng, ctx)
@@ -261,6 +279,15 @@ def one_history(res, rng, ctx):
                             'feed_generator() calls', case):
         return
     res.count('histories_fed_in_pieces')
+    try:
+        got_s = run_shared_lists(events, rng)
+    except Exception as x:
+        res.violation(f'c15-raises-{core.exc_name(x)}', f'parsers sharing the caller\'s image lists: {x!r} at {core.short_tb(x)}', case)
+        return
+    if not check_callstacks(res, got_s, merged, events, samples, 'several CallstacksParser objects over the same two list '
+                            'objects taking turns', case):
+        return
+    res.count('histories_on_shared_image_lists')
     # through the front-end, twice on one parser object
     data = wire.v2_file(gen.threadmap_for(events), 8, gen.events_to_records(events))
     p = PyKdebugParser()
